@@ -19,8 +19,8 @@ pub fn jobs(ctx: &Ctx) -> Vec<Job> {
     let caps = &ctx.caps;
     let mut jobs = Vec::new();
     let mut k = 0usize;
-    let levels_per_version = ctx.tier.pick(2, 4);
-    let payloads = ctx.tier.pick(1, ctx.scale(8));
+    let levels_per_version = 4;
+    let payloads = ctx.tier.pick(2, ctx.scale(50));
     for v in 1..=40usize {
         for li in 0..levels_per_version {
             let level = (v + li * if levels_per_version == 2 { 2 } else { 1 }) % 4;
